@@ -4,6 +4,8 @@ import (
 	"fmt"
 	"strings"
 	"sync"
+
+	"github.com/hujm2023/go-sms-protocol/verifhook"
 )
 
 type PDUStringer struct {
@@ -97,10 +99,18 @@ var stringBuilderPool = sync.Pool{New: func() any {
 }}
 
 func borrorStringBuilder() *strings.Builder {
+	if verifhook.Enabled {
+		sb := stringBuilderPool.Get().(*strings.Builder)
+		verifhook.Acquire("packet.PDUStringer", sb)
+		verifhook.Yield("packet.PDUStringer.get")
+		return sb
+	}
 	return stringBuilderPool.Get().(*strings.Builder)
 }
 
 func restoreStringBuilder(sb *strings.Builder) {
+	verifhook.Yield("packet.PDUStringer.put")
+	verifhook.Release("packet.PDUStringer", sb)
 	sb.Reset()
 	stringBuilderPool.Put(sb)
 }
